@@ -34,6 +34,8 @@ Lemma no_bad_b2h : bad_b2h = []. Proof. vm_compute. reflexivity. Qed.
 Lemma no_bad_h2b_era : bad_h2b_era = []. Proof. vm_compute. reflexivity. Qed.
 Lemma no_unmapped_eras : unmapped_eras = []. Proof. vm_compute. reflexivity. Qed.
 Lemma no_bad_block_dispatch : bad_block_dispatch = []. Proof. vm_compute. reflexivity. Qed.
+Lemma no_bad_offsets_dispatch : bad_offsets_dispatch = []. Proof. vm_compute. reflexivity. Qed.
+Lemma no_offsets_disagree : offsets_disagree = []. Proof. vm_compute. reflexivity. Qed.
 Lemma no_bad_header_dispatch : bad_header_dispatch = []. Proof. vm_compute. reflexivity. Qed.
 Lemma no_bad_tx_dispatch : bad_tx_dispatch = []. Proof. vm_compute. reflexivity. Qed.
 Lemma no_undecoded_fixtures : undecoded_fixtures = []. Proof. vm_compute. reflexivity. Qed.
@@ -209,6 +211,15 @@ Lemma block_dispatch_type t name ob : In (t, name, Some ob) block_dispatch ->
   ob_type ob = t /\ exists e, era_of_block_type t = Some e /\ ob_era ob = e_id e /\ ob_hdr_era ob = e_id e.
 Proof.
   intros H. pose proof (bad_nil _ _ no_bad_block_dispatch _ H) as Hok. unfold block_obs_ok in Hok.
+  apply andb_true_iff in Hok. destruct Hok as [Ht He]. apply N.eqb_eq in Ht.
+  destruct (era_of_block_type t) as [e|]; [|discriminate].
+  apply andb_true_iff in He. destruct He as [E1 E2]. apply N.eqb_eq in E1, E2. eauto.
+Qed.
+
+Lemma offsets_dispatch_type t name ob : In (t, name, Some ob) offsets_dispatch ->
+  ob_type ob = t /\ exists e, era_of_block_type t = Some e /\ ob_era ob = e_id e /\ ob_hdr_era ob = e_id e.
+Proof.
+  intros H. pose proof (bad_nil _ _ no_bad_offsets_dispatch _ H) as Hok. unfold block_obs_ok in Hok.
   apply andb_true_iff in Hok. destruct Hok as [Ht He]. apply N.eqb_eq in Ht.
   destruct (era_of_block_type t) as [e|]; [|discriminate].
   apply andb_true_iff in He. destruct He as [E1 E2]. apply N.eqb_eq in E1, E2. eauto.
